@@ -85,6 +85,7 @@ func (cs *aClientState) run() {
 			if !cs.connect() {
 				// the agent stayed down for 100 simulated seconds: the client gives up; whatever kept the agent down is judged by the stop and liveness rules
 				r.out.probe("client_gave_up_connecting", 1)
+				r.gaveUpConnecting = true
 				return
 			}
 		}
